@@ -55,6 +55,43 @@ def tree_hash(root=None):
     return h.hexdigest()[:12]
 
 
+def ext_hash(root=None):
+    """Hash of everything the compiled modules are made from (all sources
+    except plain .py modules, plus the build configuration)."""
+    root = root or repo_root()
+    h = hashlib.sha256()
+    for p in _source_files(root):
+        rel = os.path.relpath(p, root)
+        if rel.endswith(".py") and os.path.basename(rel) != "setup.py":
+            continue
+        h.update(rel.encode())
+        h.update(b"\0")
+        with open(p, "rb") as fh:
+            h.update(fh.read())
+        h.update(b"\0")
+    return h.hexdigest()[:16]
+
+
+def _reusable_extensions(flavour, eh):
+    """Compiled modules of a finished build of the same flavour made from
+    identical extension sources (only .py files differ), or None."""
+    import glob
+    for d in sorted(os.listdir(BUILD_ROOT)):
+        full = os.path.join(BUILD_ROOT, d)
+        if not d.startswith(flavour + "-") or ".tmp" in d:
+            continue
+        try:
+            info = open(os.path.join(full, "BUILD_INFO")).read()
+        except OSError:
+            continue
+        if "ext_hash=%s" % eh in info:
+            sos = glob.glob(os.path.join(full, "src", "pyunicorn", "*", "_ext",
+                                         "*.so"))
+            if sos:
+                return full, sos
+    return None
+
+
 def asan_env():
     """Environment needed to import an asan-flavoured build."""
     libasan = subprocess.check_output(
@@ -85,17 +122,29 @@ def _build(dest, flavour, root):
         env["CFLAGS"] = flags
         env["LDFLAGS"] = "-fsanitize=address,undefined"
     t0 = time.time()
-    r = subprocess.run([PY, "setup.py", "-q", "build_ext", "--inplace", "-j4"],
-                       cwd=tmp, env=env, stdout=subprocess.PIPE,
-                       stderr=subprocess.STDOUT, text=True)
-    if r.returncode != 0:
-        sys.stderr.write(r.stdout[-4000:])
-        shutil.rmtree(tmp, ignore_errors=True)
-        raise RuntimeError("build of %s flavour failed" % flavour)
-    shutil.rmtree(os.path.join(tmp, "build"), ignore_errors=True)
+    eh = ext_hash(root)
+    reuse = _reusable_extensions(flavour, eh)
+    if reuse is not None:
+        # identical .pyx / .pxd / .c / .h / setup.py: the compiled modules of
+        # that build are the compiled modules of this tree
+        for so in reuse[1]:
+            rel = os.path.relpath(so, reuse[0])
+            shutil.copy2(so, os.path.join(tmp, rel))
+        how = "extensions_from=%s" % os.path.basename(reuse[0])
+    else:
+        r = subprocess.run(
+            [PY, "setup.py", "-q", "build_ext", "--inplace", "-j4"],
+            cwd=tmp, env=env, stdout=subprocess.PIPE,
+            stderr=subprocess.STDOUT, text=True)
+        if r.returncode != 0:
+            sys.stderr.write(r.stdout[-4000:])
+            shutil.rmtree(tmp, ignore_errors=True)
+            raise RuntimeError("build of %s flavour failed" % flavour)
+        shutil.rmtree(os.path.join(tmp, "build"), ignore_errors=True)
+        how = "compiled"
     with open(os.path.join(tmp, "BUILD_INFO"), "w") as fh:
-        fh.write("flavour=%s root=%s build_s=%.1f\n"
-                 % (flavour, root, time.time() - t0))
+        fh.write("flavour=%s root=%s build_s=%.1f ext_hash=%s %s\n"
+                 % (flavour, root, time.time() - t0, eh, how))
     os.rename(tmp, dest)
 
 
